@@ -135,22 +135,8 @@ Qed.
 Example site_replay_fuel_reachable :
   mstep (ms_init 1 ex_vs) (MK (XOp (OpReplay (ex_hdr ex_vs ex_vs) (mk_cproof two32 [1] [])))) = Panic site_replay_fuel.
 Proof.
-  pose proof (mstep_total 1 ex_vs (ms_init 1 ex_vs)
-                (MK (XOp (OpReplay (ex_hdr ex_vs ex_vs) (mk_cproof two32 [1] []))))) as H.
-  cbn [mstep_panic_site step_panic_site] in H.
-  assert (G1 : replay_earlier_guard (ms_k (ms_init 1 ex_vs)) (ex_hdr ex_vs ex_vs) (mk_cproof two32 [1] []) = false)
-    by (vm_compute; reflexivity).
-  assert (G2 : replay_fuel_guard (ms_k (ms_init 1 ex_vs)) (ex_hdr ex_vs ex_vs) (mk_cproof two32 [1] []) = true).
-  { destruct (replay_fuel_guard _ _ _) eqn:G; [reflexivity|exfalso].
-    pose proof (replay_fuel_site_needs_round_bound) as P.
-    pose proof (step_site_exact' 1 ex_vs (init_state 1 ex_vs)
-                  (OpReplay (ex_hdr ex_vs ex_vs) (mk_cproof two32 [1] []))) as Q.
-    cbn [step_panic_site] in Q. change (ms_k (ms_init 1 ex_vs)) with (init_state 1 ex_vs) in G1, G.
-    rewrite G1, G in Q. destruct Q as (s'&r&Q).
-    - apply INV_init; [lia|reflexivity].
-    - apply tinv_init. vm_compute. reflexivity.
-    - rewrite P in Q. discriminate. }
-  rewrite G1, G2 in H. apply H; [lia|exact ex_vs_vwf|apply mra_init].
+  apply mstep_of_xstep_panic. change (ms_k (ms_init 1 ex_vs)) with (init_state 1 ex_vs). cbn [xstep].
+  exact replay_fuel_site_needs_round_bound.
 Qed.
 
 (** round entrance: a round the mirror has left (orphaned), a later round (future), a later height *)
